@@ -100,6 +100,7 @@ def build(verbose=False) -> tuple[bool, str]:
         reflect.write_consts()
         reflect.write_kernels()
         reflect.write_basisforms()
+        reflect.write_eigenvalues()
         bad = scan_forbidden()
         if bad:
             return False, "forbidden constructs: " + "; ".join(bad)
